@@ -63,16 +63,23 @@ class ReportLab:
         cb = self.new(self.Codebase, tag("root"))
         files = [("src/pkg " + tag("d1") + "/a.py", "Python"), ("src/pkg " + tag("d1") + "/sub/" + tag("f2") + ".js", "JavaScript"),
                  (tag("top") + ".py", "Python")]
+        sums = []
         for path, lang in files:
             ms = []
             for k in range(2):
                 ms.append(self.new(self.Measurement, tag(f"fn{k}"), self.new(self.Location, num(), num()), self.new(self.Location, num(), num()),
                                    [7, 40][k] + num() % 3))
             loc = sum(m.fields["value"] for m in ms)
-            e = self.new(self.Entry, path, tag("sum") + str(num()), lang, loc, ms)
+            # the first two files have the same content (one checksum) but another name, language and other functions: what is
+            # written for a file is that file's entry, not whatever was written for equal bytes
+            sums.append(sums[0] if len(sums) == 1 else tag("sum") + str(num()))
+            e = self.new(self.Entry, path, sums[-1], lang, loc, ms)
             self.call(cb, "add_file", e)
         self.call(cb, "aggregate")
-        repo = self.new(self.Repo, tag("owner"), tag("name"), tag("branch")) if with_repo else None
+        if with_repo == "empty":
+            repo = self.new(self.Repo, "", "", "")         # the empty string is a string too
+        else:
+            repo = self.new(self.Repo, tag("owner"), tag("name"), tag("branch")) if with_repo else None
         rep = self.new(self.Report, cb, repo) if with_repo else self.new(self.Report, cb)
         rep.fields["uuid"] = tag("uuid")
         rep.fields["timestamp"] = "2026-01-01T00:00:00+00:00"
